@@ -43,6 +43,14 @@ fn plan_c04(seed: u64, tier: &str) -> Plan {
         Op::CreateTopic { p: 1, id: 0, name: "T".into(), ty: Ty::Keyed, q: Q::default(), l: None },
         Op::CreateSubscriber { p: 1, id: 1, q: Q::default(), l: None },
     ];
+    // optionally a second TRANSIENT_LOCAL writer in a participant of its own: a late reader has to catch up with both
+    let two_writers = r.chance(0.5);
+    if two_writers {
+        setup.push(Op::CreateParticipant { p: 2, domain: 0, tag: String::new(), announce_ms: r.range(50, 1000), q: Q::default(), l: None });
+        setup.push(Op::CreateTopic { p: 2, id: 2, name: "T".into(), ty: Ty::Keyed, q: Q::default(), l: None });
+        setup.push(Op::CreatePublisher { p: 2, id: 2, q: Q::default(), l: None });
+        setup.push(Op::CreateWriter { id: 1, publisher: 2, topic: 2, q: Q { reliable: Some(true), durability: Some(1), history: Some(depth), mbt_ms: Some(-1), ..Default::default() }, l: None });
+    }
     // optionally an early reader so that the writer has somebody to talk to from the start
     let mut readers = vec![];
     let mut rid = 0u32;
@@ -92,6 +100,15 @@ fn plan_c04(seed: u64, tier: &str) -> Plan {
         wops.push(Op::Sleep { us: *r.pick(&[0u64, 1000, 50_000]) });
     }
     let mut clients = vec![script(wops)];
+    if two_writers {
+        // the second writer's history (its own instances, so that KEEP_LAST retention stays per writer and key)
+        let mut w2 = vec![];
+        for i in 0..r.usize(1, 4) as u32 {
+            w2.push(Op::W { w: 1, k: WKind::Write, key: 10 + r.below(2) as u8, len: r.range(0, 40), x: 5000 + i as i32, name: String::new(), ts: None, h: H::None, uid: 5000 + i });
+            w2.push(Op::Sleep { us: *r.pick(&[0u64, 50, 1000]) });
+        }
+        clients.push(script(w2));
+    }
     // joiner client
     let mut jops = vec![Op::Sleep { us: join_at_us }];
     let n_join = r.usize(1, 3);
@@ -158,10 +175,12 @@ fn check_c04(plan: &Plan, out: &Outcome) -> Verdict {
     }
     let healed = with_hist(|h| h.marks.iter().find(|m| m.0 == "healed").map(|m| m.2));
     let whandles: Vec<[u8; 16]> = out.world.st.borrow().writers.values().map(|w| w.handle).collect();
+    let whandle_of: BTreeMap<u32, [u8; 16]> = out.world.st.borrow().writers.iter().map(|(i, w)| (*i, w.handle)).collect();
     let mut raced = false;
     with_hist(|h| {
         // all write records (uid, key, inv_step, ret_step, ok)
         let writes: Vec<(u32, u8, u64, u64, bool)> = h.recs.iter().filter_map(|r| if let Op::W { uid, key, k: WKind::Write, .. } = &r.op { Some((*uid, *key, r.inv_step, r.ret_step, matches!(r.res, Res::Unit(Ok(()))))) } else { None }).collect();
+        let writer_of: BTreeMap<u32, u32> = h.recs.iter().filter_map(|r| if let Op::W { uid, w, k: WKind::Write, .. } = &r.op { Some((*uid, *w)) } else { None }).collect();
         let write_times: Vec<u64> = h.recs.iter().filter(|r| matches!(r.op, Op::W { .. })).map(|r| r.inv_t).collect();
         for (rid, tl, reliable) in &p.readers {
             let Some(crec) = h.recs.iter().find(|r| matches!(&r.op, Op::CreateReader { id, .. } if id == rid)) else { continue };
@@ -206,7 +225,9 @@ fn check_c04(plan: &Plan, out: &Outcome) -> Verdict {
                         // conservative retained set: count every write invoked before the completion
                         let considered: Vec<(u32, u8)> = writes.iter().filter(|w| w.2 <= rec.ret_step && (w.4 || w.3 > rec.ret_step)).map(|w| (w.0, w.1)).collect();
                         let keep = retained(&considered, p.depth);
-                        let historical: Vec<u32> = writes.iter().filter(|w| w.4 && w.3 <= crec.inv_step && keep.contains(&w.0)).map(|w| w.0).collect();
+                        // of the writers the reader knew at completion
+                        let known_writer = |uid: &u32| writer_of.get(uid).and_then(|w| whandle_of.get(w)).is_some_and(|hd| matched.contains(hd));
+                        let historical: Vec<u32> = writes.iter().filter(|w| w.4 && w.3 <= crec.inv_step && keep.contains(&w.0) && known_writer(&w.0)).map(|w| w.0).collect();
                         let missing: Vec<&u32> = historical.iter().filter(|u| !seqs.contains(u)).collect();
                         if !missing.is_empty() {
                             v.violate("C04", "C04.wait-historical-early", "C04.wait-historical-early".into(), format!("wait_for_historical_data of reader {rid} returned Ok at step {} while retained historical samples {:?} had not been received", rec.ret_step, missing));
